@@ -14,9 +14,9 @@ CONSTANTS MaxTokens, Emit
 
 (* reporting actions reachable by a request, with their client-controlled fields *)
 Actions == {
-  [a |-> "file-requested",   fields |-> {"path", "query"}],
-  [a |-> "sent-script",      fields |-> {"c2-param", "c2-header", "host"}],
-  [a |-> "input-connected",  fields |-> {"id"}],
+  [a |-> "file-requested",   fields |-> {"path", "query", "client-address"}],
+  [a |-> "sent-script",      fields |-> {"c2-param", "c2-header", "host", "client-address"}],
+  [a |-> "input-connected",  fields |-> {"id", "client-address"}],
   [a |-> "output-connected", fields |-> {"id"}],
   [a |-> "refused-duplicate",fields |-> {"id"}],
   [a |-> "refused-wrong-id", fields |-> {"id"}]
@@ -24,6 +24,11 @@ Actions == {
 
 Tokens == {"%s", "%d", "%v", "%q", "%x", "%+v", "%#v", "%08.3f", "%[1]s", "%[2]*d", "%*d", "%%", "%20", "%25", "%41",
            "%", "%z", "%-5s", "% d", "plain", "%!"}
+
+(* The client address is not chosen token by token: the only "%" it can    *)
+(* carry is the zone of an IPv6 link-local address (fe80::1%eth0); the      *)
+(* driver sends one request per action from such an address when the host   *)
+(* has one.                                                                 *)
 
 (* a formatter artefact marker never produced by data-only rendering of artefact-free input *)
 ArtefactFree(toks) == \A i \in 1..Len(toks) : toks[i] # "%!"
